@@ -32,6 +32,11 @@ func RunServer(t *testing.T, sc sim.Scenario, prefixes []string, nontrivial func
 			probs = append(probs, Problem{Sig: "C10/close-count", Msg: fmt.Sprintf("connection %d: the library called Close %d times", i+1, n)})
 		}
 	}
+	for _, rec := range h.SrvSent {
+		if msg := wholeMessage(rec); msg != "" {
+			probs = append(probs, Problem{Sig: "C10/malformed-record", Msg: fmt.Sprintf("the server passed %q to Send: %s", rec, msg)})
+		}
+	}
 	if lim > 0 && h.MaxRunning > lim {
 		probs = append(probs, Problem{Sig: "C06/limit-exceeded", Msg: fmt.Sprintf("%d handlers were executing at one instant, limit %d", h.MaxRunning, lim)})
 	}
@@ -98,6 +103,55 @@ func HistoryText(h *sim.History) string {
 		}
 		if e.Snap != nil {
 			fmt.Fprintf(&sb, " reserved=%v callbacks=%v queued=%d parked=%v", e.Snap.Reserved, e.Snap.Callbacks, e.Snap.Queued, e.Snap.Parked)
+		}
+		sb.WriteByte('\n')
+		if sb.Len() > 20000 {
+			sb.WriteString("  ...\n")
+			break
+		}
+	}
+	return sb.String()
+}
+
+// CScriptText renders a client script for failure messages.
+func CScriptText(sc sim.CScenario) string {
+	var sb strings.Builder
+	fmt.Fprintf(&sb, "  cfg: %+v\n", sc.Cfg)
+	for i, s := range sc.Steps {
+		fmt.Fprintf(&sb, "  %2d %s\n", i, s)
+	}
+	return sb.String()
+}
+
+// CHistoryText renders a client history for failure messages.
+func CHistoryText(h *sim.CHistory) string {
+	var sb strings.Builder
+	for _, e := range h.Events {
+		fmt.Fprintf(&sb, "  %3d s%-2d %-12s", e.Seq, e.Step, e.Kind)
+		if e.K != 0 || e.I != 0 {
+			fmt.Fprintf(&sb, " #%d[%d]", e.K, e.I)
+		}
+		if e.ID != "" {
+			fmt.Fprintf(&sb, " id=%s", e.ID)
+		}
+		if e.Class != "" {
+			fmt.Fprintf(&sb, " %s", e.Class)
+		}
+		if e.Code != 0 {
+			fmt.Fprintf(&sb, " code=%d", e.Code)
+		}
+		if e.Err != "" {
+			fmt.Fprintf(&sb, " err=%s", e.Err)
+		}
+		if e.Data != "" {
+			d := e.Data
+			if len(d) > 170 {
+				d = d[:170] + "..."
+			}
+			fmt.Fprintf(&sb, " %s", d)
+		}
+		if e.Kind == "quiesce" {
+			fmt.Fprintf(&sb, " pending=%v stopped=%v", e.Pending, e.Stopped)
 		}
 		sb.WriteByte('\n')
 		if sb.Len() > 20000 {
